@@ -313,3 +313,47 @@ Proof. unfold cubic_res, sqabs_p, sqabs_q, nnd. rsimp. rcases; lra. Qed.
 (** the executable model computes (Qc): soft threshold of 5/4 at 1/2 is 3/4 *)
 Example C02_model_computes : l1_code (Q2Qc (1 # 2)) (Q2Qc (5 # 4)) = Q2Qc (3 # 4).
 Proof. vm_compute. reflexivity. Qed.
+
+(** ** Tie to the source.  The left-hand sides (modules SVGen.C02_L0 ... C02_Ball) are the prox
+    bodies of scico/functional/_norm.py and _indicator.py as regenerated by tools/py2coq.py on
+    every run, read at one element of a real array ([Elem nv]: arrays := scalars, broadcasting
+    := identity, norm(v) := nv v); the right-hand sides are the [*_code] models the theorems
+    above are about.  Generic in the scalar type. *)
+From SV Require Import C11.Overload C02.Gen.
+From SVGen Require C02_L0 C02_L1 C02_SqL2 C02_L2 C02_Huber C02_NonNeg C02_Ball.
+
+Theorem C02_gen_l0_prox : forall (K : Type) (NK : Num K) (nv : K -> K) (v lam : K),
+  C02_L0.prox_gen (AO := Elem nv) v lam = l0_code lam v.
+Proof. exact (@l0_gen_is_model). Qed.
+Print Assumptions C02_gen_l0_prox.
+
+Theorem C02_gen_l1_prox : forall (K : Type) (NK : Num K) (nv : K -> K) (v lam : K),
+  C02_L1.prox_gen (AO := Elem nv) v lam = l1_code lam v.
+Proof. exact (@l1_gen_is_model). Qed.
+Print Assumptions C02_gen_l1_prox.
+
+Theorem C02_gen_sql2_prox : forall (K : Type) (NK : Num K) (nv : K -> K) (v lam : K),
+  C02_SqL2.prox_gen (AO := Elem nv) v lam = sql2_code lam v.
+Proof. exact (@sql2_gen_is_model). Qed.
+Print Assumptions C02_gen_sql2_prox.
+
+Theorem C02_gen_l2_prox : forall (K : Type) (NK : Num K) (nv : K -> K) (v lam : K),
+  C02_L2.prox_gen (AO := Elem nv) v lam = l2_code lam (nv v) v.
+Proof. exact (@l2_gen_is_model). Qed.
+Print Assumptions C02_gen_l2_prox.
+
+Theorem C02_gen_huber_prox : forall (K : Type) (NK : Num K) (nv : K -> K) (delta v lam : K),
+  C02_Huber._prox_sep_gen (AO := Elem nv) (C02_Huber.mk_st delta) v lam = huber_code delta lam (kabs v) v /\
+  C02_Huber._prox_nonsep_gen (AO := Elem nv) (C02_Huber.mk_st delta) v lam = huber_code delta lam (nv v) v.
+Proof. exact (@huber_gen_is_model). Qed.
+Print Assumptions C02_gen_huber_prox.
+
+Theorem C02_gen_nonneg_prox : forall (K : Type) (NK : Num K) (nv : K -> K) (v lam : K),
+  C02_NonNeg.prox_gen (AO := Elem nv) v lam = nonneg_code v.
+Proof. exact (@nonneg_gen_is_model). Qed.
+Print Assumptions C02_gen_nonneg_prox.
+
+Theorem C02_gen_ball_prox : forall (K : Type) (NK : Num K) (nv : K -> K) (r v lam : K),
+  C02_Ball.prox_gen (AO := Elem nv) (C02_Ball.mk_st r) v lam = ball_code r (nv v) v.
+Proof. exact (@ball_gen_is_model). Qed.
+Print Assumptions C02_gen_ball_prox.
